@@ -85,9 +85,10 @@ def gen_cases(tier: str, seed: int):
             elif x < 0.34:
                 steps.append(["create_view", ci, lvl, db, sc, "V1"])
             elif x < 0.46:
-                steps.append(["use_db", ci, db])
+                steps.append(["use_db", ci, db, r.random() < 0.3])  # last: without the (optional) DATABASE keyword
             elif x < 0.62:
-                steps.append(["use_schema", ci, r.choice([0, 1]), db, sc])
+                q = r.choice([0, 1])
+                steps.append(["use_schema", ci, q, db, sc, bool(q) and r.random() < 0.3])  # last: USE db.schema without SCHEMA
             elif x < 0.80:
                 steps.append(["insert", ci, lvl, db, sc, tb])
             elif x < 0.87:
@@ -125,6 +126,9 @@ def _run(case: dict, env: core.Env, fs: Any, r: random.Random) -> None:
                 cat[D].setdefault(S, {})
         ctx.append([D, S if D else None])
     raw = core.raw_root(fs).cursor()
+    # every connection also keeps two cursors open for the whole history: a step runs on one of them or on a fresh one
+    held = [[c.cursor(), c.cursor()] for c in conns]
+    pick = random.Random(case.get("spell", 0) ^ 0x5BD1)
     marker_n = [0]
     ctx_changed = False
     located = 0
@@ -206,7 +210,9 @@ def _run(case: dict, env: core.Env, fs: Any, r: random.Random) -> None:
     for step in case["steps"]:
         op, i = step[0], step[1]
         c = conns[i]
-        cur = c.cursor()
+        which = pick.randrange(3)
+        cur = c.cursor() if which == 2 else held[i][which]
+        env.cover("cursor_used", "fresh" if which == 2 else f"held-{which}")
         D, S = ctx[i]
         env.cover("op", op)
         fail: tuple | None = None  # (level, errno-or-None) when the statement must fail
@@ -363,7 +369,8 @@ def _run(case: dict, env: core.Env, fs: Any, r: random.Random) -> None:
                 return True
         elif op == "use_db":
             db = step[2]
-            sql = f"USE DATABASE {_spell(r, db)}"
+            sql = f"USE {_spell(r, db)}" if len(step) > 3 and step[3] else f"USE DATABASE {_spell(r, db)}"
+            env.cover("use_spelling", "USE <db>" if len(step) > 3 and step[3] else "USE DATABASE <db>")
             if db not in cat:
                 fail = ("-", None)
 
@@ -379,9 +386,12 @@ def _run(case: dict, env: core.Env, fs: Any, r: random.Random) -> None:
                 ctx[i] = [db, rep_s]
                 return True
         elif op == "use_schema":
-            _, _, q, db, sc = step
+            _, _, q, db, sc = step[:5]
             tdb = db if q else D
             sql = f"USE SCHEMA {name_sql(1, '', db, sc) if q else _spell(r, sc)}"
+            if q and len(step) > 5 and step[5]:
+                sql = f"USE {name_sql(1, '', db, sc)}"
+            env.cover("use_spelling", "USE <db>.<schema>" if q and len(step) > 5 and step[5] else "USE SCHEMA ..")
             if tdb is None:
                 fail = (q, "90105")
             elif tdb not in cat or sc not in cat[tdb]:
